@@ -217,6 +217,10 @@ def run_case(case):
             except OverflowError:
                 return dict(ok=True, nontrivial=False,
                             classes=classes + ["overflow"])
+            except (KeyError, IndexError, AttributeError) as e:
+                # every declared variable exists in the generated mapping
+                return fail(f"resolving the declared variables raised "
+                            f"{type(e).__name__}: {e}", path)
             size = max(46, sg.packet.size)
             frame = bytearray((case["seed"] + 29 * i + (i * i >> 4)) & 0xff
                               for i in range(size))
